@@ -6,6 +6,7 @@ import (
 	"fmt"
 	"hash"
 	"hash/fnv"
+	"regexp"
 	"sort"
 	"strings"
 	"sync"
@@ -102,10 +103,21 @@ func (c *Ctl) InitStrategy() {
 // Now is the simulated time since the start of the run.
 func (c *Ctl) Now() time.Duration { return time.Since(c.start) }
 
+var portRe = regexp.MustCompile(`(127\.0\.0\.\d+|\[::1?\]|0\.0\.0\.0|localhost):\d+`)
+
+// Normalize removes kernel-chosen values (ephemeral ports) from a message.
+func Normalize(s string) string {
+	if !strings.Contains(s, ":") {
+		return s
+	}
+	return portRe.ReplaceAllString(s, "$1:PORT")
+}
+
 // Logf appends to the event log. It never draws from the tape.
 func (c *Ctl) Logf(format string, a ...any) {
+	m := Normalize(fmt.Sprintf(format, a...))
 	c.mu.Lock()
-	c.Log = append(c.Log, fmt.Sprintf("%d@%s ", c.Step, c.Now())+fmt.Sprintf(format, a...))
+	c.Log = append(c.Log, fmt.Sprintf("%d@%s ", c.Step, c.Now())+m)
 	c.mu.Unlock()
 }
 
@@ -125,7 +137,7 @@ func (c *Ctl) Probe(name string) {
 
 // Violate records an oracle failure.
 func (c *Ctl) Violate(oracle, sig, format string, a ...any) {
-	msg := fmt.Sprintf(format, a...)
+	msg := Normalize(fmt.Sprintf(format, a...))
 	c.mu.Lock()
 	for _, v := range c.Viol {
 		if v.Oracle == oracle && v.Sig == sig {
@@ -373,10 +385,28 @@ func (c *Ctl) Fingerprint() string { return fmt.Sprintf("%016x", c.fp.Sum64()) }
 func (c *Ctl) Digest() string {
 	h := sha256.New()
 	c.mu.Lock()
-	for _, l := range c.Log {
+	// lines written by different goroutines within one step have no defined
+	// order: the digest is taken over each step's lines sorted
+	lines := append([]string(nil), c.Log...)
+	c.mu.Unlock()
+	stepOf := func(l string) string {
+		i := strings.IndexAny(l, "@ ")
+		if i < 0 {
+			return l
+		}
+		return l[:i]
+	}
+	for i := 0; i < len(lines); {
+		j := i
+		for j < len(lines) && stepOf(lines[j]) == stepOf(lines[i]) {
+			j++
+		}
+		sort.Strings(lines[i:j])
+		i = j
+	}
+	for _, l := range lines {
 		h.Write([]byte(l))
 		h.Write([]byte{'\n'})
 	}
-	c.mu.Unlock()
 	return hex.EncodeToString(h.Sum(nil))[:16]
 }
